@@ -285,6 +285,11 @@ impl VariableMapping {
         self.0.contains_key(key)
     }
 
+    /// Register `value` under `name`, replacing an earlier registration of that name.
+    pub fn replace(&mut self, name: String, value: PrimitiveFlagsPair) {
+        self.0.insert(name, value);
+    }
+
     pub fn update_once(&mut self, name: String, value: PrimitiveFlagsPair) -> Result<()> {
         if let Some(export) = self.0.insert(name, value) {
             bail!("value already present: {export:?}");
